@@ -160,7 +160,7 @@ func (tx *Transaction) Commit(ctx context.Context, scope *ReferenceScope, expr p
 				return NewCommitError(expr, err.Error())
 			}
 
-			if !tx.Flags.ExportOptions.StripEndingLineBreak && !(fileInfo.Format == option.FIXED && fileInfo.SingleLine) {
+			if !tx.Flags.ExportOptions.StripEndingLineBreak && !(fileInfo.Format == option.FIXED && fileInfo.SingleLine) && fileInfo.Format != option.JSONL {
 				verifPoint("tx.commit.eol", fileInfo.Path)
 				if _, err := fp.Write([]byte(fileInfo.LineBreak.Value())); err != nil {
 					return NewCommitError(expr, err.Error())
@@ -189,7 +189,7 @@ func (tx *Transaction) Commit(ctx context.Context, scope *ReferenceScope, expr p
 				return NewCommitError(expr, err.Error())
 			}
 
-			if !tx.Flags.ExportOptions.StripEndingLineBreak && !(fileInfo.Format == option.FIXED && fileInfo.SingleLine) {
+			if !tx.Flags.ExportOptions.StripEndingLineBreak && !(fileInfo.Format == option.FIXED && fileInfo.SingleLine) && fileInfo.Format != option.JSONL {
 				verifPoint("tx.commit.eol", fileInfo.Path)
 				if _, err := fp.Write([]byte(fileInfo.LineBreak.Value())); err != nil {
 					return NewCommitError(expr, err.Error())
